@@ -287,6 +287,16 @@ func genLivesim(t *rapid.T) Req {
 	asset := rapid.SampledFrom(assets).Draw(t, "asset")
 	file := rapid.SampledFrom(files).Draw(t, "file")
 	file = strings.ReplaceAll(file, "$N$", rapid.SampledFrom(segNums).Draw(t, "segnum"))
+	if rapid.IntRange(0, 2).Draw(t, "deep") == 0 {
+		// a hostile value is only exercised by the segment code if the request is otherwise servable: known asset, available segment
+		asset = "testpic_2s"
+		file = rapid.SampledFrom([]string{"V300/499.m4s", "A48/499.m4s", "V300/480.m4s", "A48/475.m4s", "V300/499.m4s", "V300/init.mp4", "Manifest.mpd"}).Draw(t, "deepfile")
+		for _, p := range parts {
+			if p == "segtimeline_1" && strings.HasPrefix(file, "V300/4") {
+				file = "V300/89820000.m4s" // segment 499 addressed by time
+			}
+		}
+	}
 	now := strconv.Itoa(fixedNow)
 	q := "?nowMS=" + now
 	switch rapid.IntRange(0, 14).Draw(t, "query") {
